@@ -22,6 +22,9 @@ package bfe_http
 
 // ---- C26: header map operations used by the hop-by-hop removal ----
 
+// first value of a field, "" when absent (what Header.Get returns)
+//@ spec hdrGet(h Header, key string) string := (h != nil && has(h, canonKey(key)) && len(h[canonKey(key)]) > 0) ? h[canonKey(key)][0] : ""
+
 //@ func (Header).Get
 //@   props C26
 //@   nopanic
@@ -70,3 +73,12 @@ package bfe_http
 //@   loop 1 invariant[values_live_in_fresh_arrays] forall k string :: has(dst, k) ==> !allocated(dst[k])
 //@   loop 2 invariant[only_source_fields_so_far] forall k string :: has(dst, k) ==> has(src, k)
 //@   loop 2 invariant[values_live_in_fresh_arrays] forall k string :: has(dst, k) ==> !allocated(dst[k])
+
+//@ func (Header).Set
+//@   props C26 C52
+//@   nopanic
+//@   requires h != nil
+//@   modifies h[..]
+//@   ensures[single_value_under_the_canonical_key] has(h, canonKey(key)) && len(h[canonKey(key)]) == 1 && h[canonKey(key)][0] == value
+//@   ensures[other_keys_are_kept] forall k string :: k != canonKey(key) ==> (has(h, k) <==> old(has(h, k)))
+//@   ensures[other_values_are_kept] forall k string :: k != canonKey(key) ==> sameslice(h[k], old(h[k]))
